@@ -208,6 +208,16 @@ def rules(ctx):
                                 src(n.generators[0].iter) == kv and not n.generators[0].ifs and \
                                 src(n.elt) == '%s._mapping[%s]' % (sn, src(n.generators[0].target)):
                             ok = True
+        # every return hands back the model filled by that loop (no path that skips the relabelling)
+        rets = [n for n in walk_no_nested(strip_docstring(fn.node.body)) if isinstance(n, ast.Return)]
+        filled = {src(t.value) for lp_ in walk_no_nested(strip_docstring(fn.node.body)) if isinstance(lp_, ast.For)
+                  for st in ast.walk(lp_) if isinstance(st, (ast.Assign, ast.AugAssign))
+                  for t in (st.targets if isinstance(st, ast.Assign) else [st.target]) if isinstance(t, ast.Subscript)}
+        byp = [r for r in rets if src(r.value) not in filled]
+        ctx.inst('R04.6', fn, 'every return is the relabelled model', not byp,
+                 "all returns hand back the relabelled model" if not byp else
+                 "`%s` returns a model that did not go through the relabelling loop: its labels are not the mapping's "
+                 "integers when the shortcut's assumption is stale" % src(byp[0])[:60])
         ctx.inst('R04.6', fn, 'key relabelling', ok,
                  "every label of every key goes through self._mapping" if ok else
                  "%s does not relabel every label of every key through self._mapping" % q)
